@@ -11,6 +11,7 @@ import XrayProofs.ConvDate
 import XrayProofs.ConvFrac
 import XrayProofs.ConvTime
 import XrayProofs.ConvStr
+import XrayProofs.ConvJson
 namespace XrayModel.C20
 open XrayGen XrayModel.Conv
 
@@ -199,6 +200,14 @@ example : isScalar 0xD7FF = true ∧ isScalar 0xD800 = false ∧ isScalar 0xDFFF
 /-- the text `serialize` writes for a string reads back as the same string, for every string (quotes,
 backslashes, control characters, non-BMP characters) -/
 theorem unescape_escape (s : List Nat) : unescapeStr (escapeStr s) = some s := unescape_escape_str s
+
+/-- a whole document: the text the serialiser of include.rs (`serialize`) writes for a JSON value reads back, with the
+recursive-descent reader, as the same value — any nesting, any strings, empty arrays/objects, number tokens kept
+verbatim (`WF`: a number token is a non-empty run of `0-9 + - . e E`, which is what float `to_str` writes) -/
+theorem parse_ser (j : J) (h : WF j) : parseJson (ser j) = some j := parse_ser_doc j h
+
+example : WF (.arr [.num [49, 46, 53], .obj [([107], .str [34, 10]), ([], .arr [])], .null, .bool true]) := by
+  simp [WF, WFL, WFF, isNumChar]
 
 /-- escaped text contains no raw control character -/
 theorem escape_no_controls (c : Nat) : ∀ x ∈ escapeChar c, 32 ≤ x := escapeChar_clean c
